@@ -57,7 +57,7 @@ type rtRouter struct {
 
 func rtBuild(c Sx, caching bool) *rtRouter {
 	xs := c.Lst()
-	var opts []func(*rux.Router)
+	var opts, later []func(*rux.Router)
 	customNF, customNA, lateOpt := false, false, false
 	groupPrefix, inGroup := "", false
 	for _, o := range xs[1].Lst() {
@@ -72,13 +72,17 @@ func rtBuild(c Sx, caching bool) *rtRouter {
 			if caching {
 				// the three spellings of "cache with capacity n"; which one is used depends only on the case
 				n := uint16(o.List[1].Int())
-				switch (o.List[1].Int() + len(xs[2].Lst())) % 3 {
+				switch (o.List[1].Int() + len(xs[2].Lst())) % 4 {
 				case 0:
 					opts = append(opts, rux.CachingWithNum(n))
 				case 1:
 					opts = append(opts, rux.EnableCaching, rux.MaxNumCaches(n))
-				default:
+				case 2:
 					opts = append(opts, rux.MaxNumCaches(n), rux.EnableCaching)
+				default:
+					// in two steps: New(EnableCaching), then WithOptions(MaxNumCaches(n)) on the still empty router
+					opts = append(opts, rux.EnableCaching)
+					later = append(later, rux.MaxNumCaches(n))
 				}
 			}
 		case "intercept":
@@ -96,6 +100,9 @@ func rtBuild(c Sx, caching bool) *rtRouter {
 		}
 	}
 	rr := &rtRouter{r: rux.New(opts...), byName: map[string]int{}}
+	if len(later) > 0 {
+		rr.r.WithOptions(later...)
+	}
 	if caching {
 		// a second router configured with the very same option values (one option list used for two routers): it has
 		// its own routes, and its lookups must not influence this router
